@@ -241,3 +241,138 @@ func VerifHarness_C20_static_none() {
 	}
 	vReach("end")
 }
+
+// vOSNet is a transport.Net with the port bookkeeping of a real host: a UDP or TCP bind to a port some live socket
+// holds fails with "address already in use" - unless both sockets asked for SO_REUSEPORT (a ListenConfig whose
+// Control hook is set, which is what reuseport.Control does), in which case Linux lets them share the port.
+type vOSNet struct {
+	transport.Net
+	bindIP   net.IP
+	udp, tcp []int  // ports held by live sockets
+	tcpReuse []bool // per TCP listener: bound with SO_REUSEPORT
+	resolved int
+}
+
+func (n *vOSNet) ListenPacket(network, address string) (net.PacketConn, error) {
+	_, ps, err := net.SplitHostPort(address)
+	vAssume(err == nil)
+	port, err := strconv.Atoi(ps)
+	vAssume(err == nil)
+	if port == 0 { // the host picks a free port
+		port = int(vU16())
+		vAssume(port != 0)
+		for _, p := range n.udp {
+			vAssume(p != port)
+		}
+	}
+	for _, p := range n.udp {
+		if p == port {
+			return nil, errVBusy
+		}
+	}
+	n.udp = append(n.udp, port)
+	return &allocation.VPacketConn{Name: "relay", Local: &net.UDPAddr{IP: n.bindIP, Port: port}}, nil
+}
+
+func (n *vOSNet) ResolveTCPAddr(network, address string) (*net.TCPAddr, error) {
+	_, ps, err := net.SplitHostPort(address)
+	vAssume(err == nil)
+	port, err := strconv.Atoi(ps)
+	vAssume(err == nil)
+	n.resolved = port
+	return &net.TCPAddr{IP: n.bindIP, Port: port}, nil
+}
+
+type vOSListenConfig struct {
+	n     *vOSNet
+	reuse bool
+}
+
+func (lc *vOSListenConfig) Listen(ctx context.Context, network, address string) (net.Listener, error) {
+	port := lc.n.resolved
+	if port == 0 { // the host picks a free port
+		port = int(vU16())
+		vAssume(port != 0)
+		for _, p := range lc.n.tcp {
+			vAssume(p != port)
+		}
+	}
+	for i, p := range lc.n.tcp {
+		if p == port && !(lc.reuse && lc.n.tcpReuse[i]) {
+			return nil, errVBusy
+		}
+	}
+	lc.n.tcp = append(lc.n.tcp, port)
+	lc.n.tcpReuse = append(lc.n.tcpReuse, lc.reuse)
+	return &allocation.VListener{Address: &net.TCPAddr{IP: lc.n.bindIP, Port: port}}, nil
+}
+func (lc *vOSListenConfig) ListenPacket(ctx context.Context, network, address string) (net.PacketConn, error) {
+	return nil, errVBusy
+}
+func (n *vOSNet) CreateListenConfig(c *net.ListenConfig) transport.ListenConfig {
+	return &vOSListenConfig{n: n, reuse: c != nil && c.Control != nil}
+}
+
+// Two allocations that are alive at the same time never get the same relay port from the port-range generator
+// (or the second fails cleanly), whatever the random source draws - in particular when it draws the same port twice.
+//
+//verif:props=C20 unwind=12 bounds="port-range generator (all (MinPort, MaxPort) with 1 <= MinPort <= MaxPort, MaxRetries 1..3, all random outputs, no requested port) or static generator (requested port 0 or any, for each allocation); two allocations of the same transport (UDP or TCP), both alive; host port bookkeeping as on Linux (busy port refused unless both sockets asked for SO_REUSEPORT)"
+func VerifHarness_C20_two_live_allocations_never_share_a_port() {
+	n := &vOSNet{bindIP: net.IP(vBytesN(4))}
+	pr := &RelayAddressGeneratorPortRange{RelayAddress: net.IP(vBytesN(4)), MinPort: vU16(), MaxPort: vU16(), MaxRetries: vIntRange(1, 3), Rand: &vRand{}, Address: "0.0.0.0", Net: n}
+	vAssume(pr.MinPort >= 1)
+	vAssume(pr.MinPort <= pr.MaxPort)
+	vAssume(pr.Validate() == nil)
+	var g RelayAddressGenerator = pr
+	req1, req2 := 0, 0
+	static := vBool()
+	if static {
+		// the static generator binds the requested port, or lets the host choose (port 0)
+		st := &RelayAddressGeneratorStatic{RelayAddress: net.IP(vBytesN(4)), Address: "0.0.0.0", Net: n}
+		vAssume(st.Validate() == nil)
+		g = st
+		if vBool() {
+			req1 = int(vU16())
+		}
+		if vBool() {
+			req2 = int(vU16())
+		}
+	}
+	tcp := vBool()
+	p1, p2 := -1, -1
+	var e1, e2 error
+	if tcp {
+		var l1, l2 net.Listener
+		l1, _, e1 = g.AllocateListener(AllocateListenerConfig{Network: "tcp4", RequestedPort: req1})
+		l2, _, e2 = g.AllocateListener(AllocateListenerConfig{Network: "tcp4", RequestedPort: req2})
+		if e1 == nil {
+			p1 = l1.Addr().(*net.TCPAddr).Port
+		}
+		if e2 == nil {
+			p2 = l2.Addr().(*net.TCPAddr).Port
+		}
+	} else {
+		var c1, c2 net.PacketConn
+		c1, _, e1 = g.AllocatePacketConn(AllocateListenerConfig{Network: "udp4", RequestedPort: req1})
+		c2, _, e2 = g.AllocatePacketConn(AllocateListenerConfig{Network: "udp4", RequestedPort: req2})
+		if e1 == nil {
+			p1 = c1.LocalAddr().(*net.UDPAddr).Port
+		}
+		if e2 == nil {
+			p2 = c2.LocalAddr().(*net.UDPAddr).Port
+		}
+	}
+	vAssert(e1 == nil, "C20.first_allocation_on_a_free_host_succeeds")
+	// TCP relay listeners are opened with SO_REUSEPORT (they must share their port with the outbound connections of the
+	// same allocation), which also lets the listener of ANOTHER allocation bind the same port: known finding
+	// (the known history: TCP, and the second bind was directed at the first one's port - by the random draw of the
+	// port-range generator or by an explicit request to the static one; a static allocation WITHOUT requested port must
+	// get a free port from the host and is not part of the finding)
+	known := vAnd(tcp, vOr(!static, vAnd(req2 != 0, req2 == p1)))
+	vAssertKF(vOr(e2 != nil, p1 != p2), "C20.two_live_allocations_never_share_a_relay_port", known, "tcp-relay-listeners-share-a-port")
+	vAssertIf(!static && pr.MinPort == pr.MaxPort && !tcp, e2 == errMaxRetriesExceeded, "C20.exhausted_range_fails_cleanly")
+	vAssertIf(static && !tcp && req2 != 0 && req2 == p1, e2 != nil, "C20.requested_port_in_use_fails_cleanly")
+	vAssertIf(static && req2 != 0 && e2 == nil, p2 == req2, "C20.requested_port_is_used_unchanged")
+	vCover(vAnd(e2 == nil, !tcp), "C20.cover_two_udp_allocations")
+	vReach("end")
+}
